@@ -108,7 +108,9 @@ def _load_offsets(cache_path, current_hash):
             ) = pickle.load(file)
             if current_hash is None or current_hash == serialized_hash:
                 return
-    except (FileNotFoundError, ValueError, TypeError):
+    except (OSError, EOFError, pickle.UnpicklingError, ValueError, TypeError,
+            AttributeError, ImportError, IndexError, KeyError):
+        # a missing, empty, truncated or otherwise unreadable cache is rebuilt below
         pass
 
     _search_regex_parts = []
